@@ -1,4 +1,5 @@
 """Reusable rule builders (WHO / DOM / PAIR) over the fact base."""
+import os
 from .cfg import (Explorer, estr, is_call, is_int, is_member, is_ref, same_expr,
                   strip_addr, walk, written_lvalues, event_expr, norm_cond, dominators)
 from .facts import AnalysisBroken
@@ -16,6 +17,57 @@ def prod_funcs(prog, files=None):
 # ---------------------------------------------------------------------------
 # WHO
 
+_REF = {}
+
+
+def reference_profile(variant):
+    """name -> {'V': callees with counts, 'Wf': fields stored} of the reference tree (engine/baseline_profiles.json)"""
+    if variant not in _REF:
+        import json
+        path = os.path.join(os.path.dirname(os.path.abspath(__file__)), 'baseline_profiles.json')
+        out = {}
+        try:
+            with open(path) as fh:
+                allb = json.load(fh)
+        except OSError:
+            allb = {}
+        for file, fs in allb.get(variant, {}).items():
+            for name, pr in fs.items():
+                out.setdefault(name, {'V': {}, 'Wf': []})
+                out[name]['V'].update(pr.get('V', {}))
+                out[name]['Wf'] = sorted(set(out[name]['Wf']) | set(pr.get('Wf', [])))
+        _REF[variant] = out
+    return _REF[variant]
+
+
+def absorbed_from(prog, f, allowed, op_callee=None, op_field=None):
+    """Name of an allowed function W whose body f has absorbed (hand-inlining of a helper into its caller), or None:
+    in the reference tree f called W, W performed the operation (called op_callee / stored op_field), and f now calls
+    W less often than it did (or W is gone).  f was already a performer of the operation, through W; a who-may rule
+    that admitted the pair then admits f alone now.  Anything else - a new party, or an extra operation next to a call
+    of W that is still there - is not admitted."""
+    ref = reference_profile(getattr(prog, 'variant', 'A'))
+    mine = ref.get(f.name)
+    if not mine:
+        return None
+    now = {}
+    for b, i, c in f.calls():
+        if c.get('callee'):
+            now[c['callee']] = now.get(c['callee'], 0) + 1
+    for w in allowed:
+        n_ref = mine['V'].get(w, 0)
+        if not n_ref or now.get(w, 0) >= n_ref:
+            continue
+        wp = ref.get(w)
+        if not wp:
+            continue
+        if op_callee is not None and wp['V'].get(op_callee):
+            return w
+        if op_field is not None and op_field in wp['Wf']:
+            return w
+    return None
+
+
 def who_calls(prog, rule, callee, allowed, files=None, why=''):
     """Every production call site of `callee` is in a function named in
     `allowed` (dict name -> reason, or set)."""
@@ -24,6 +76,11 @@ def who_calls(prog, rule, callee, allowed, files=None, why=''):
         if files is not None and f.file not in files:
             continue
         key = '%s<-%s' % (callee, f.name)
+        if f.name not in allowed:
+            w = absorbed_from(prog, f, allowed, op_callee=callee)
+            if w:
+                rule.ok(key, {'site': '%s:%d' % (f.file, c['line']), 'absorbed': w})
+                continue
         if f.name in allowed:
             rule.ok(key, {'site': '%s:%d' % (f.file, c['line']), 'call': estr(c)[:120]})
         else:
@@ -55,6 +112,10 @@ def who_writes_field(prog, rule, rec, field, allowed, why='', value_ok=None):
     for f, line, how, rhs, lhs in ws:
         key = '%s.%s<-%s:%s' % (rec, field, f.name, how)
         if f.name not in allowed:
+            w = absorbed_from(prog, f, allowed, op_field='%s.%s' % (rec, field))
+            if w:
+                rule.ok(key, {'site': '%s:%d' % (f.file, line), 'absorbed': w})
+                continue
             rule.violation(key, f.name, f.file, line,
                            '%s.%s is written (%s) in %s, not an allowed writer (%s). %s' % (
                                rec, field, how, f.name, ', '.join(sorted(allowed)), why))
